@@ -456,6 +456,16 @@ def gen_cases(tier, rng):
         yield {"spec": ["reuse", rng.randrange(10 ** 9), ["mplx", nc, ts]]}
         yield {"spec": ["reuse", rng.randrange(10 ** 9), ["ctrl", [rng.randint(0, 1) for _ in range(rng.randint(1, 2))], rng.choice(ts)]]}
         yield {"spec": ["reuse", rng.randrange(10 ** 9), ["random", rng.randrange(10 ** 12), rng.choice([1, 2]), rng.random() < 0.5]]}
+    # every target class as the single target of a zero-control multiplexer and as both targets of a one-control multiplexer
+    # (the multiplexer's network must contract to ITS matrix also where the target's own network is an exception: preparation gates)
+    singles = [["leaf", "RotationGate", [0.4, -1.1, 2.0]], ["leaf", "TGate", None], ["general", 1, 77, False], ["phase", 0.7, 1],
+               ["prepare", 1, [0.3, -0.7], False], ["prepare", 1, [0.0, 1.0], True], ["timeevo", 1, 5], ["leaf", "RyGate", -0.9]]
+    doubles = [["general", 2, 78, True], ["ctrl", [0], ["leaf", "RyGate", 0.8]], ["prepare", 2, [0.1, -0.2, 0.3, 0.4], False],
+               ["prepare", 2, [0.0, 0.5, 0.25, 0.25], True], ["timeevo", 2, 6], ["phase", -1.3, 2]]
+    for t in singles + doubles:
+        yield {"spec": ["mplx", 0, [t]]}
+        yield {"spec": ["mplx", 1, [t, t]]}
+        yield {"spec": ["ctrl", [1], ["mplx", 0, [t]]]}
     # mismatching target widths: np.stack refuses
     yield {"spec": ["mplx", 1, [["leaf", "RyGate", 0.3], ["general", 2, 5, True]]]}
     # random nested gates
